@@ -27,6 +27,9 @@ func c01Cases(tier string) []*space.Case {
 	}
 	base = append(base, space.F4()...)
 	base = append(base, space.F5()...)
+	for _, rev := range []bool{false, true} {
+		base = append(base, &space.Case{Label: fmt.Sprintf("F5/names/reversed=%v", rev), Family: "F5", Tags: map[string]string{"class": "multiroot", "card": "mixed", "vt": "names", "pos": "deep"}, File: c12NamesFile(rev), Cfg: space.BaseConfig(c12NamesRoots...)})
+	}
 	type v struct {
 		sort, sep bool
 		mix       string
